@@ -52,6 +52,9 @@ def run_check(prop: str, tier: str, seed: int, overlay=None, write_evidence=True
                 "false_alarms": s["false_alarms"],
             }
         }
+        if s["missed"] or s["false_alarms"] or s["stale"]:
+            # about the checker, not about /repo: the verdict below stands, the report says where the checker itself fell short
+            print(f"SELFTEST-WARNING: property={prop} missed={s['missed']} false_alarms={s['false_alarms']} stale={s['stale']}")
         if hasattr(mod, "thorough_extra"):
             extra.update(mod.thorough_extra(prog, seed) or {})
     units = dict(prog.stats())
